@@ -173,8 +173,6 @@ Proof.
   rewrite ok_args2_cons.
   cbn [ok_args2 andb].
   rewrite andb_true_r.
-  replace (slots_ok (nabs [Grp2 [] [Text2 [] (85 :: 43 :: hex)] []]) (1 + List.length (lit "texttt"))) with true by (vm_compute; reflexivity).
-  rewrite andb_true_r.
   unfold ok_arg2.
   cbn [a_kind a_delta apply_adelta ok_expr2 orb andb].
   rewrite ok_item_grp2.
